@@ -34,7 +34,10 @@ RULE = ("sweep: for each of the 118 elements (plus the neutron slot of the cryst
         "documented sum of exponentials evaluated with math.exp/fsum; Q is handed over in a drawn argument form (scalars, list, tuple, ndarray layouts and "
         "integer dtypes, read-only), the result must have the argument's shape and the argument must come back unchanged; 'reuse' cases hand ONE list/ndarray object to every available order (j0, j2, j4, j6, J, M) of two "
         "ions and to .xray.f0 / fxrayatq / fxrayatstol of two labels in a row and judge every result against the "
-        "intended Q values. Every entry is non-trivial (finite domain swept "
+        "intended Q values. large grids: a fixed handful of calls on grids of 2**18, 2**18+1, "
+        "3e5, 600x600, 3x100001 and 2**20 points (C and Fortran order) for ions, isotope ions, neutral atoms and ions "
+        "without an entry (.xray.f0), two labels (fxrayatq) and four magnetic orders, judged at ~70 strided points plus "
+        "both ends and the points around 2**18; shape kept, argument unchanged. Every entry is non-trivial (finite domain swept "
         "completely); generated cases are non-trivial when some Q > 0; distinct by (table, element, group) / by value.")
 ASSUMPTIONS = [
     "the embedded text is the specification; a coefficient is served correctly iff it == float(<its text>) (exact); "
@@ -668,12 +671,123 @@ def task_q(ctx, n):
 
 
 # ----------------------------------------------------------------------
+# size as a dimension of the argument: a handful of very large Q grids
+LARGE_SHAPES = [[2 ** 18], [2 ** 18 + 1], [300000], [600, 600], [2 ** 20], [3, 100001]]
+# (symbol, isotope or 0, charge): ions, isotope ions, neutral atoms, and ions WITHOUT a Waasmaier-Kirfel entry
+LARGE_ATOMS = [["Fe", 0, 2], ["Fe", 56, 3], ["O", 0, -2], ["O", 18, -2], ["Cl", 0, -1], ["U", 238, 4], ["Fe", 0, 0],
+               ["Si", 0, 0], ["Fe", 0, 5], ["Na", 0, -1], ["Fe", 54, 4]]
+LARGE_MAGNETIC = [["Fe", 2, "j0"], ["Fe", 2, "j2"], ["Nd", 3, "j6"], ["Ho", 2, "J"]]
+LARGE_LABELS = ["Fe2+", "O2-", "Cval"]
+
+
+def check_large(ctx, case):
+    """One library call on one very large grid; judged at a strided subsample plus the first and last points."""
+    import numpy
+    from periodictable import cromermann
+    E = env()
+    T = E["tables"][case["table"]]
+    shape = tuple(case["shape"])
+    n = 1
+    for d in shape:
+        n *= d
+    Q = numpy.linspace(0.0, 30.0, n).reshape(shape)
+    if case.get("order") == "F" and len(shape) > 1:
+        Q = numpy.asfortranarray(Q)
+    idx = sorted(set([0, 1, n - 2, n - 1, 2 ** 18 - 1, 2 ** 18, 2 ** 18 + 1] + list(range(0, n, max(1, n // 61)))))
+    idx = [i for i in idx if 0 <= i < n]
+    route = case["route"]
+    expect_entry = True
+    if route == "f0":
+        sym, iso, charge = case["atom"]
+        el = T.symbol(sym)
+        atom = el[iso] if iso else el
+        atom = atom.ion[charge] if charge else atom
+        label = R.cm_label(sym, charge)
+        ent = E["oracle"]["cm"].get(label)
+        expect_entry = ent is not None
+        fn, desc = atom.xray.f0, "%s %r.xray.f0" % (case["table"], atom)
+        ref = (lambda q: cm_value(ent, q)) if ent else None
+        bucket = "c20:large-grid:f0"
+    elif route == "fxrayatq":
+        label = case["label"]
+        ent = E["oracle"]["cm"][label]
+        fn, desc = (lambda q: cromermann.fxrayatq(label, q)), "fxrayatq(%r, Q)" % label
+        ref = lambda q: cm_value(ent, q)
+        bucket = "c20:large-grid:cm"
+    else:
+        sym, c, jn = case["magnetic"]
+        coef = E["oracle"]["magnetic"][sym][c][jn][-1]
+        ff = T.symbol(sym).magnetic_ff[c]
+        fn, desc = getattr(ff, jn + "_Q"), "%s %s.magnetic_ff[%d].%s_Q" % (case["table"], sym, c, jn)
+        ref = lambda q: mff_value(coef, jn, q)
+        bucket = "c20:large-grid:magnetic"
+    ctx.case(repr(sorted(case.items())), True, {"call": desc, "grid": list(shape), "entry": expect_entry},
+             ["large:" + route + (":no-entry" if not expect_entry else ""), "large-shape:" + "x".join(str(d) for d in shape),
+              "table:" + case["table"]])
+    flatQ = Q.reshape(-1) if Q.flags.c_contiguous else Q.flatten()
+    first, last, total = float(flatQ[0]), float(flatQ[-1]), float(Q.sum())
+    try:
+        res = fn(Q)
+    except Exception as e:  # noqa
+        if not expect_entry:
+            return          # no entry: refused
+        raise
+    if Q.shape != shape or float(Q.reshape(-1)[0] if Q.flags.c_contiguous else Q.flatten()[0]) != first or \
+            float(Q.sum()) != total or float(Q.flatten()[-1]) != last:
+        raise Violation("c20:argument-modified:Q", "%s changed its %s-point argument" % (desc, n), case)
+    res = numpy.asarray(res)
+    if res.shape != shape:
+        raise Violation("c20:formula:shape", "%s on a grid of shape %r gave shape %r" % (desc, shape, res.shape), case)
+    rflat, qflat = res.flatten(), Q.flatten()
+    for i in idx:
+        g, q = float(rflat[i]), float(qflat[i])
+        if not expect_entry:
+            if g == g and abs(g) != float("inf"):
+                raise Violation("c20:large-grid:f0-without-entry",
+                                "%s on %d points returns %r at Q=%r but the file has no entry %r" % (desc, n, g, q, label), case)
+            continue
+        w, scale = ref(q)
+        if not (g == g) or abs(g - w) > 1e-12 * scale + TINY:
+            raise Violation(bucket, "%s on %d points: value at index %d (Q=%r) is %r, the documented expression gives %r"
+                            % (desc, n, i, q, g, w), case)
+
+
+def large_cases(tier):
+    out = []
+    k = 0
+    for wi, which in enumerate(("public", "private")):
+        for ai, atom in enumerate(LARGE_ATOMS):
+            always = [[2 ** 18 + 1], [600, 600]]
+            others = [s for s in LARGE_SHAPES if s not in always]
+            shapes = LARGE_SHAPES if tier != "quick" else always + [others[(ai + wi) % len(others)]]
+            for shape in shapes:
+                k += 1
+                out.append({"kind": "large", "route": "f0", "table": which, "atom": atom, "shape": shape,
+                            "order": "F" if k % 2 else "C"})
+        for mg in LARGE_MAGNETIC:
+            for shape in ([2 ** 18 + 1], [600, 600]):
+                out.append({"kind": "large", "route": "magnetic", "table": which, "magnetic": mg, "shape": shape, "order": "C"})
+    for label in LARGE_LABELS:
+        for shape in ([2 ** 18 + 1], [600, 600]):
+            out.append({"kind": "large", "route": "fxrayatq", "table": "public", "label": label, "shape": shape, "order": "F"})
+    return out
+
+
+def task_large(ctx, part, parts):
+    env()
+    for n, case in enumerate(large_cases(ctx.tier)):
+        if n % parts == part:
+            ctx.check(check_large, case)
+
+
+# ----------------------------------------------------------------------
 def tasks(tier):
     out = [("tables-public", task_tables, dict(which="public")),
            ("tables-private", task_tables, dict(which="private")),
            ("tables-public-after-private-init", task_tables, dict(which="public", order="private-first")),
            ("tables-private-initialised-first", task_tables, dict(which="private", order="private-first")),
            ("cromer-mann", task_cm, {})]
+    out += [("large-grids-%d" % k, task_large, dict(part=k, parts=3)) for k in range(3)]
     if tier == "quick":
         out += [("q-%d" % k, task_q, dict(n=3500)) for k in range(5)]
     else:
@@ -707,5 +821,7 @@ def replay(ctx, case):
             ctx.violation(b, m, case)
     elif kind == "q":
         check_q(ctx, case["value"])
+    elif kind == "large":
+        check_large(ctx, case)
     else:
         raise ValueError("unknown case kind %r" % kind)
